@@ -1,6 +1,6 @@
 (* Props/C15.v — time and race-length conversions are exact, or refused - never wrong. *)
 Require Import Coq.Strings.String.
-Require Import Base.Bytes Wire.Layout Wire.Customs Wire.LayoutProofs Wire.CustomProofs Wire.Packet Gen.Packets Core.TimeProofs.
+Require Import Base.Bytes Wire.Layout Wire.Customs Wire.LayoutProofs Wire.CustomProofs Wire.Packet Gen.Packets Core.TimeProofs Core.ExprDefs Gen.RaceLapsTab Core.RaceLapsGen Core.RaceLapsGenProofs.
 Local Open Scope N_scope.
 
 (* every wire value of a scaled time field (any width, any scale > 0) decodes to a duration that
@@ -29,6 +29,12 @@ Theorem c15_racelaps_wire_roundtrip : forall b, b <= 238 ->
 Proof. exact racelaps_wire_roundtrip. Qed.
 Theorem c15_racelaps_reserved_bytes : forall b, 239 <= b -> racelaps_of_u8 b = (0, 0).
 Proof. exact racelaps_reserved_bytes_are_practice. Qed.
+
+(* the race-length model these theorems are about IS racelaps.rs: the two `From` impls, translated arm by arm on every run
+   (Gen/RaceLapsTab.v: ranges and arithmetic), evaluate to the model for every byte and for every lap / hour count *)
+Theorem c15_racelaps_model_is_the_source :
+  (forall b, rl_dec b = racelaps_of_u8 b) /\ (forall tag n, rl_enc tag n = racelaps_to_u8 tag n).
+Proof. exact (conj rl_dec_is_model rl_enc_is_model). Qed.
 
 (* encode side, all lap and hour counts: practice, or the same count, or (100..1000 laps) the count
    rounded down to the 10-lap resolution - never another value *)
